@@ -650,6 +650,23 @@ pub enum PeerConnectionEvent {
 #[derive(Clone)]
 pub struct PeerConnection {
     inner: Arc<PeerConnectionInner>,
+    /// Present on every handle given to the application (and its clones), absent
+    /// on the temporary handles the connection's own tasks build around `inner`.
+    /// When the last application handle goes away the connection is closed, even
+    /// though internal tasks may still hold strong references to `inner`.
+    _user: Option<Arc<UserHandle>>,
+}
+
+/// Closes the connection when the application drops its last `PeerConnection`.
+struct UserHandle(std::sync::Weak<PeerConnectionInner>);
+
+impl Drop for UserHandle {
+    fn drop(&mut self) {
+        if let Some(inner) = self.0.upgrade() {
+            inner.close_with_reason(DisconnectReason::Dropped);
+            inner.abort_tracked_tasks();
+        }
+    }
 }
 
 struct PeerConnectionInner {
@@ -810,8 +827,10 @@ impl PeerConnection {
             tasks: Mutex::new(Vec::new()),
             pc_span,
         };
+        let inner = Arc::new(inner);
         let pc = Self {
-            inner: Arc::new(inner),
+            _user: Some(Arc::new(UserHandle(Arc::downgrade(&inner)))),
+            inner,
         };
 
         if is_direct_mode {
@@ -4233,6 +4252,7 @@ async fn handle_connected_state_no_dtls(
     if let Some(inner) = inner_weak.upgrade() {
         let pc_temp = PeerConnection {
             inner: inner.clone(),
+            _user: None,
         };
         // For RTP/SRTP, we pass false as is_client, but it doesn't matter as start_dtls handles it
         match pc_temp.start_dtls(false).await {
@@ -4339,6 +4359,7 @@ async fn handle_connected_state(
             if let Some(inner) = inner_weak.upgrade() {
                 let pc_temp = PeerConnection {
                     inner: inner.clone(),
+                    _user: None,
                 };
 
                 match pc_temp.start_dtls(is_client).await {
